@@ -140,6 +140,7 @@ pub fn gen_scenario(run_seed: u64, tier: Tier) -> E3Scenario {
         plain: rw.chance(1, 3),
         closed_imports: false,
         cover_fragments: false,
+        name_collisions: true,
         dirs: vec!["/p/src".into(), "/p/src/a".into(), "/p/src/a/b".into(), "/p/lib".into(), "/q".into()],
     };
     let ops = wgen::gen_ops(&mut rw, &schema, &o);
